@@ -212,6 +212,27 @@ public:
     }
 };
 
+// F3 (a short read is remembered as "last block": the next call returns the empty end-of-data piece without reading)
+class BadProducer : public Decompressor {
+    int m_fd = 0;
+    const char* m_buffer = nullptr;
+    bool m_last_block_seen = false;
+
+public:
+    std::string read() override {
+        std::string buffer;
+        if (m_buffer) {
+            buffer.append(m_buffer);
+        } else if (!m_last_block_seen) {
+            buffer.resize(1024);
+            const auto nread = detail::reliable_read(m_fd, &*buffer.begin(), 1024);
+            buffer.resize(static_cast<std::string::size_type>(nread));
+            m_last_block_seen = buffer.size() < 1024;
+        }
+        return buffer;
+    }
+};
+
 // F2 (every read stores at the start of the buffer)
 inline bool bad_read_exactly(int fd, char* buffer, unsigned int size) {
     unsigned int to_read = size;
